@@ -121,6 +121,21 @@ fn sim_clock() -> std::time::Instant {
     }
 }
 
+thread_local! {
+    static ID_CTR: Cell<u64> = const { Cell::new(0) };
+}
+
+/// Deterministic source of "random" ids (span ids, OpenTelemetry ids) for one run. It does not
+/// draw from the tape, so it cannot perturb the schedule.
+pub fn next_id() -> u64 {
+    let c = ID_CTR.with(|c| {
+        let v = c.get() + 1;
+        c.set(v);
+        v
+    });
+    crate::tape::splitmix(c ^ 0x5BD1_E995_97F4_A7C1) | 1
+}
+
 fn sim_yield(site: &'static str) {
     preempt(site);
 }
@@ -578,6 +593,8 @@ pub fn run_sim<S, R>(
         CUR.with(|c| *c.borrow_mut() = Some(sim.clone()));
         tarpc::verif_hooks::set_clock(Some(sim_clock));
         tarpc::verif_hooks::set_yield(Some(sim_yield));
+        ID_CTR.with(|c| c.set(0));
+        tarpc::verif_hooks::set_span_ids(Some(next_id));
         let mut state = setup(&sim);
         let horizon_reached = {
             let state_ref = &mut state;
@@ -604,6 +621,7 @@ pub fn run_sim<S, R>(
         let r = finish(&sim, state, &end);
         tarpc::verif_hooks::set_clock(None);
         tarpc::verif_hooks::set_yield(None);
+        tarpc::verif_hooks::set_span_ids(None);
         CUR.with(|c| *c.borrow_mut() = None);
         r
     });
